@@ -1,11 +1,20 @@
 ENGINES = [
-    {"name": "gosched", "path": "vrt/ explore/ instr/", "serves_properties": ["C02", "C03", "C04"],
+    {"name": "seqx", "path": "seqx/", "serves_properties": ["C01"],
+     "kind_free_text": "explicit-state breadth-first search over operation sequences: successor = fresh real instance + replay of the shortest history + one operation; dedup on the reference model's canonical state; every operation of the alphabet applied from every reachable state and compared with the reference model"},
+    {"name": "gosched", "path": "vrt/ explore/ instr/", "serves_properties": ["C01", "C02", "C03", "C04"],
      "kind_free_text": "stateless model checker for Go: AST instrumenter rewrites go/chan/select/sync/atomic/time/context onto a cooperative scheduler (vrt); explorer does DFS over schedules and environment choices with iterative preemption bounding, work-splitting over worker processes, replay files"},
 ]
 NOTES = "All checks rebuild from /repo's working tree through bin/prepare (instrument + overlay); exit 2 = engine/build error (never a verdict)."
 NOT_APPLICABLE = {}
 A_NOTE = "Trusted: the vrt shims model Go's mutex/cond/channel/select/timer semantics faithfully (self-tests + repository tests pass on the instrumented build in passthrough mode); sequential consistency; scheduling points before acquire-type operations only; data races are left to a separate -race pass."
 CHECKS = {
+    "C01": {
+        "engine": "seqx+gosched",
+        "technique": "explicit-state BFS of operation sequences vs a reference model on 5 CoreState flavours + stateless model checking of 2-3 concurrent clients with a porcupine linearizability check of every history",
+        "text": "Sequential: every operation of a 190-operation alphabet (create/update/destroy/get/list x owners x stale/fresh/undefined versions x expected phases x value/phase/finalizer changes, two ids) is applied from every abstract state reachable within depth 5 (thorough 6) on inmem, namespaced, state.Filter, inmem+recording store, inmem+bbolt and compared with a Go map model: success/failure, failure class among the applicable reasons, untouched snapshot incl. timestamps on failure, version/owner write-back, creation time kept, all error predicates bare and qualified without panic. Concurrent: all schedules (unbounded) of every pair of 13 operations x 4 initial states, and triples at preemption bound 2, each history checked by porcupine against the same model.",
+        "design_ref": "DESIGN.md 3/C01",
+        "note": A_NOTE + " Remote flavour of C01 is exercised by the C11 differential check.",
+    },
     "C02": {
         "engine": "gosched",
         "technique": "stateless model checking of the real inmem watch ring under a controlled scheduler (iterative preemption bounding); delivered stream vs commit log at exact quiescence",
